@@ -23,7 +23,7 @@ type c11Scen struct {
 }
 
 var c11Roots = []string{"/a", "/b", "/a/{v}", "/", "/a/", "/a/b", "/ab", "/{v}", "/a/{v}/x", "/a/{v}/y", "/users/{id}/a", "/users/{id}/b"}
-var c11Subs = []string{"/x", "/{id}", "", "/x/{id}", "/y"}
+var c11Subs = []string{"/x", "/{id}", "", "/x/{id}", "/y", "/{id}:go"}
 var c11Plain = []string{"/static/", "/h", "/h2/"}
 
 func genC11(x *Ctx) *c11Scen {
